@@ -17,18 +17,19 @@ type loopCtx struct {
 }
 
 type Frame struct {
-	fi      *FuncInfo
-	info    *types.Info
-	act     int
-	keys    map[*types.Var]string
-	scope   map[string]string // name -> store key (most recent declaration), for spec expressions
-	returns []*State
-	defers  []*ast.CallExpr
-	loops   []*loopCtx
-	loopOrd int
-	loopIdx map[token.Pos]int
-	nres    int
-	resVars []*types.Var
+	fi        *FuncInfo
+	info      *types.Info
+	act       int
+	keys      map[*types.Var]string
+	addrTaken map[*types.Var]bool
+	scope     map[string]string // name -> store key (most recent declaration), for spec expressions
+	returns   []*State
+	defers    []*ast.CallExpr
+	loops     []*loopCtx
+	loopOrd   int
+	loopIdx   map[token.Pos]int
+	nres      int
+	resVars   []*types.Var
 }
 
 func (x *Exec) newFrame(fi *FuncInfo) *Frame {
@@ -579,6 +580,9 @@ func (x *Exec) assign(c *Ctx, lhs ast.Expr, v Value) {
 		if !ok {
 			panic(engineErr("%s: assignment to variable %s outside the frame", x.pos(l.Pos()), l.Name))
 		}
+		if c.fr.addrTaken[obj] {
+			panic(engineErr("%s: assignment to %s after its address was taken", x.pos(l.Pos()), l.Name))
+		}
 		st.store[key] = c.coerce(v, obj.Type())
 	case *ast.SelectorExpr:
 		sel, ok := c.info.Selections[l]
@@ -608,6 +612,26 @@ func (x *Exec) assign(c *Ctx, lhs ast.Expr, v Value) {
 			x.noteWrite(c, "S:"+path, l.Pos())
 			x.storeTo(st, "S:"+path, v)
 		case KScalar:
+			if strings.HasPrefix(cont.Path, "H:") {
+				h := x.load(st, cont.Path, contT)
+				nh := h
+				nh.Fields = map[string]Value{}
+				for n, fv := range h.Fields {
+					nh.Fields[n] = fv
+				}
+				hf := h.Fields[f.Name()]
+				nf := zip2(hf, liftLike(hf, v), func(arr, val *Term) *Term { return Store(arr, cont.S, val) })
+				nf.T = hf.T
+				nh.Fields[f.Name()] = nf
+				c.oblige("nil", exprText(l.X), Neq(cont.S, Nil), l.Pos())
+				x.storeTo(st, cont.Path, nh)
+				return
+			}
+			if _, isId := unparen(l.X).(*ast.Ident); isId && cont.T != nil {
+				if _, isPtr := types.Unalias(cont.T).Underlying().(*types.Pointer); !isPtr && !types.IsInterface(cont.T) {
+					panic(engineErr("%s: assignment to a field of %s, a copy of a boxed struct value", x.pos(l.Pos()), exprText(l.X)))
+				}
+			}
 			key := "H:" + typeName(contT) + "." + f.Name()
 			h := x.load(st, key, f.Type())
 			nv := zip2(h, liftLike(h, v), func(arr, val *Term) *Term { return Store(arr, cont.S, val) })
@@ -626,7 +650,7 @@ func (x *Exec) assign(c *Ctx, lhs ast.Expr, v Value) {
 		switch cur.Kind {
 		case KSlice:
 			c.oblige("bounds", exprText(l), And(Le(IntLit(0), idx.S), Lt(idx.S, cur.Len)), l.Pos())
-			v = c.coerce(v, elemTypeOrNil(cur.T))
+			v = c.boxElem(c.coerce(v, elemTypeOrNil(cur.T)), elemTypeOrNil(cur.T))
 			cur.Arr = Store(cur.Arr, idx.S, v.S)
 		case KMap:
 			c.oblige("nilmap", exprText(l.X), Not(cur.IsNil), l.Pos())
@@ -639,7 +663,20 @@ func (x *Exec) assign(c *Ctx, lhs ast.Expr, v Value) {
 			panic(engineErr("%s: indexed assignment to %s not supported", x.pos(l.Pos()), exprText(l.X)))
 		}
 		x.assign(c, l.X, cur)
+	case *ast.SliceExpr:
+		// a[:] = ... (through copy): the full slice of an array or slice shares its elements
+		if l.Low != nil || l.High != nil || l.Max != nil {
+			panic(engineErr("%s: assignment through a partial slice expression not supported", x.pos(l.Pos())))
+		}
+		v.T = c.typeOf(l.X)
+		x.assign(c, l.X, v)
 	case *ast.StarExpr:
+		if pt, ok := types.Unalias(c.typeOf(l.X)).Underlying().(*types.Pointer); ok && x.isBoxed(pt.Elem()) {
+			p := c.eval(l.X)
+			c.oblige("nil", exprText(l.X), Neq(p.S, Nil), l.Pos())
+			c.storePointee(p.S, pt.Elem(), v)
+			return
+		}
 		panic(engineErr("%s: assignment through pointer not supported", x.pos(l.Pos())))
 	default:
 		panic(engineErr("%s: assignment target %T not supported", x.pos(lhs.Pos()), lhs))
@@ -763,6 +800,10 @@ func (x *Exec) loopSpec(fr *Frame, p token.Pos) (*LoopSpec, int) {
 
 func (x *Exec) checkInvariants(fr *Frame, st *State, ls *LoopSpec, ord int, kind string, p token.Pos) {
 	c := x.ctx(fr, st)
+	if kind == "loop-step" && len(ls.Invariants) > 0 && len(x.prefix) == 0 {
+		// cover canary: the end of the loop body must be reachable, or the step obligations say nothing
+		x.oblige(st, "vacuity", fmt.Sprintf("loop%d.body", ord), nil, False, p, "the loop body is reachable")
+	}
 	for i, inv := range ls.Invariants {
 		g := c.specEval(inv.Expr, st, x.entryState(fr), x.entryVars(fr))
 		hint := fmt.Sprintf("loop%d.%d%s", ord, i+1, clauseLabel(inv))
